@@ -188,6 +188,74 @@ fn read_cols(s: &dyn IterableStore<Column = Column>) -> Result<Model, String> {
     .unwrap_or_else(|p| Err(format!("panic: {p}")))
 }
 
+/// iteration through an iterable view (whole columns in both directions and
+/// prefix / start queries) against the model state
+fn check_iteration(
+    hist: &mut Hist,
+    view: &dyn IterableStore<Column = Column>,
+    ks: &[(Column, Bytes)],
+    expected: &Model,
+) -> Result<Vec<String>, String> {
+    let mut mismatches = Vec::new();
+    for col in all_cols() {
+        let colmap = expected.col(col.id());
+        let mut queries: Vec<(Option<Bytes>, Option<Bytes>)> = vec![(None, None)];
+        let mut seen = BTreeSet::new();
+        for (_, k) in ks.iter().filter(|(c, _)| c.id() == col.id()) {
+            // ContractsState has a fixed 32-byte prefix extractor: prefixes there
+            // are whole 32-byte heads (see C11 for the shorter ones)
+            let p = if col.id() == Column::ContractsState.id() {
+                k[..32].to_vec()
+            } else {
+                vec![k[0]]
+            };
+            if seen.insert(p.clone()) {
+                queries.push((Some(p.clone()), None));
+                queries.push((None, Some(k.clone())));
+                queries.push((Some(p), Some(k.clone())));
+            }
+        }
+        for (prefix, start) in queries {
+            for dir in [IterDirection::Forward, IterDirection::Reverse] {
+                hist.local.evals += 1;
+                hist.local.count("view_iterations");
+                let want = model_iter(&colmap, prefix.as_deref(), start.as_deref(), dir);
+                let got = catch(|| {
+                    let mut out = Vec::new();
+                    for item in view.iter_store(col, prefix.as_deref(), start.as_deref(), dir) {
+                        let (k, v) = item.map_err(|e| format!("{e}"))?;
+                        out.push((k, v.to_vec()));
+                    }
+                    Ok::<_, String>(out)
+                })
+                .unwrap_or_else(|p| Err(format!("panic: {p}")))?;
+                let got_keys = catch(|| {
+                    let mut out = Vec::new();
+                    for item in view.iter_store_keys(col, prefix.as_deref(), start.as_deref(), dir) {
+                        out.push(item.map_err(|e| format!("{e}"))?);
+                    }
+                    Ok::<_, String>(out)
+                })
+                .unwrap_or_else(|p| Err(format!("panic: {p}")))?;
+                let want_keys: Vec<Bytes> = want.iter().map(|(k, _)| k.clone()).collect();
+                if got != want || got_keys != want_keys {
+                    mismatches.push(format!(
+                        "iter(col {:?}, prefix={}, start={}, {}): expected {} observed iter_store={} iter_store_keys={}",
+                        col,
+                        hex_opt(prefix.as_deref()),
+                        hex_opt(start.as_deref()),
+                        dir_str(dir),
+                        hex_kvs(&want),
+                        hex_kvs(&got),
+                        hex_keys(&got_keys)
+                    ));
+                }
+            }
+        }
+    }
+    Ok(mismatches)
+}
+
 fn strip_empty(m: &Model) -> Model {
     let mut out = Model::default();
     for (c, cm) in &m.cols {
@@ -257,7 +325,47 @@ fn gen_block(rng: &mut StdRng, ks: &[(Column, Bytes)], current: &Model, height: 
 }
 
 #[allow(clippy::too_many_arguments)]
-fn check_latest(hist: &mut Hist, db: &Database<OnChain>, chain: &[Block], base: &Model, what: &str) {
+/// every read method and iteration of a `latest_view()` (fresh or held)
+fn check_latest_view(
+    hist: &mut Hist,
+    view: &dyn IterableStore<Column = Column>,
+    ks: &[(Column, Bytes)],
+    expected: &Model,
+    kind: &str,
+    what: &str,
+) {
+    hist.local.count(&format!("latest_views.{kind}.checked"));
+    match check_view_reads(hist, view, ks, &BTreeSet::new(), expected, 0) {
+        Ok(m) => {
+            if !m.values.is_empty() {
+                hist.violation(
+                    &format!("latest_view_wrong_value view={kind}"),
+                    format!("latest_view ({kind}) after {what}: {}", m.values.join("; ")),
+                );
+            }
+            if let Some((method, _)) = m.methods.first() {
+                hist.violation(
+                    &format!("view_read_method_disagrees_with_get method={method} view={kind}_latest"),
+                    format!(
+                        "latest_view ({kind}) after {what}: {}",
+                        m.methods.iter().take(5).map(|x| x.1.clone()).collect::<Vec<_>>().join("; ")
+                    ),
+                );
+            }
+        }
+        Err(e) => hist.violation("view_read_failed", format!("latest_view ({kind}) after {what}: {e}")),
+    }
+    match check_iteration(hist, view, ks, expected) {
+        Ok(m) if m.is_empty() => {}
+        Ok(m) => hist.violation(
+            &format!("latest_view_iteration_mismatch view={kind}"),
+            format!("latest_view ({kind}) after {what}: {}", m.iter().take(4).cloned().collect::<Vec<_>>().join("; ")),
+        ),
+        Err(e) => hist.violation("view_read_failed", format!("iterating latest_view ({kind}) after {what}: {e}")),
+    }
+}
+
+fn check_latest(hist: &mut Hist, db: &Database<OnChain>, ks: &[(Column, Bytes)], chain: &[Block], base: &Model, what: &str) {
     let expected_height = chain.last().map(|b| b.height);
     let expected_state = chain.last().map(|b| &b.state).unwrap_or(base);
     hist.local.evals += 1;
@@ -282,62 +390,93 @@ fn check_latest(hist: &mut Hist, db: &Database<OnChain>, chain: &[Block], base: 
     }
     hist.local.evals += 1;
     match catch(|| AtomicView::latest_view(db)) {
-        Ok(Ok(view)) => match read_cols(&view) {
-            Ok(observed) => {
-                let d = model_diff(&strip_empty(expected_state), &observed);
-                if !d.is_empty() {
-                    hist.violation(
-                        &format!("latest_state_mismatch after={what}"),
-                        format!("latest_view() after {what}: {}", d.join("; ")),
-                    );
+        Ok(Ok(view)) => {
+            match read_cols(&view) {
+                Ok(observed) => {
+                    let d = model_diff(&strip_empty(expected_state), &observed);
+                    if !d.is_empty() {
+                        hist.violation(
+                            &format!("latest_state_mismatch after={what}"),
+                            format!("latest_view() after {what}: {}", d.join("; ")),
+                        );
+                    }
                 }
+                Err(e) => hist.report.inconclusive(format!("reading latest view failed: {e}")),
             }
-            Err(e) => hist.report.inconclusive(format!("reading latest view failed: {e}")),
-        },
+            check_latest_view(hist, &view, ks, expected_state, "fresh", what);
+        }
         Ok(Err(e)) => hist.report.inconclusive(format!("latest_view failed: {e}")),
         Err(p) => hist.report.inconclusive(format!("latest_view panicked: {p}")),
     }
 }
 
-/// returns mismatches of a view against the model state
+/// what the reads through a view showed against the model state
+#[derive(Default)]
+struct ViewDiff {
+    /// `get` returned a wrong value
+    values: Vec<String>,
+    /// `get` was right but another read method of the same view disagreed:
+    /// (method, description)
+    methods: Vec<(&'static str, String)>,
+}
+
+/// Reads every key through every read method of the view (get, exists,
+/// size_of_value, read_exact, read_zerofill) and compares with the model state.
 fn check_view_reads(
     hist: &mut Hist,
     view: &dyn KeyValueInspect<Column = Column>,
     ks: &[(Column, Bytes)],
     block_heights: &BTreeSet<u64>,
     expected: &Model,
-    corrupt_one: bool,
-) -> Result<Vec<String>, String> {
-    let mut mismatches = Vec::new();
+    corrupt: u32,
+) -> Result<ViewDiff, String> {
+    let mut diff = ViewDiff::default();
     let mut keys: Vec<(Column, Bytes)> = ks.to_vec();
     for h in block_heights {
         keys.push((Column::FuelBlocks, block_key(*h)));
     }
-    let mut corrupt = corrupt_one;
-    for (col, key) in keys {
-        hist.local.evals += 1;
+    let mut corrupt = corrupt;
+    for (i, (col, key)) in keys.into_iter().enumerate() {
+        hist.local.evals += 5;
         hist.local.count("view_reads");
         let e = expected.get(col.id(), &key);
-        let mut o = match catch(|| view.get(&key, col).map(|v| v.map(|v| v.to_vec())).map_err(|e| format!("{e}"))) {
+        let len = e.map(|v| v.len()).unwrap_or(0);
+        let (offset, buf_len) = read_case(hist.local.evals.wrapping_add(i as u64), len);
+        let mut o = match catch(|| do_reads(view, &key, col, offset, buf_len)) {
             Ok(Ok(o)) => o,
-            Ok(Err(e)) => return Err(format!("get(col {:?}, [{}]) failed: {e}", col, hexs(&key))),
-            Err(p) => return Err(format!("get(col {:?}, [{}]) panicked: {p}", col, hexs(&key))),
+            Ok(Err(e)) => return Err(format!("col {:?} key [{}]: {e}", col, hexs(&key))),
+            Err(p) => return Err(format!("reading col {:?} key [{}] panicked: {p}", col, hexs(&key))),
         };
-        if corrupt {
-            corrupt = false;
-            o = Some(vec![0xEE]);
+        if corrupt == 1 {
+            corrupt = 0;
+            o.get = Some(vec![0xEE]);
         }
-        if o.as_ref() != e {
-            mismatches.push(format!(
+        if corrupt == 3 && o.exists {
+            // selftest: a view whose `exists` forgets the entry while `get` has it
+            corrupt = 0;
+            o.exists = false;
+        }
+        let want = expected_reads(e, offset, buf_len);
+        let d = diff_reads(&want, &o);
+        if d.is_empty() {
+            continue;
+        }
+        if want.get != o.get {
+            diff.values.push(format!(
                 "col {:?} key [{}]: expected {} observed {}",
                 col,
                 hexs(&key),
                 hex_opt(e.map(|v| v.as_slice())),
-                hex_opt(o.as_deref())
+                hex_opt(o.get.as_deref())
             ));
+        } else {
+            for (m, text) in d {
+                diff.methods
+                    .push((m, format!("col {:?} key [{}] (offset {offset}, buffer {buf_len}): {text}", col, hexs(&key))));
+            }
         }
     }
-    Ok(mismatches)
+    Ok(diff)
 }
 
 #[derive(Clone)]
@@ -419,6 +558,8 @@ fn run_history(args: &Args, report: &Report, shard: usize, shard_seed: u64, iter
     // held views: (height, view, expected state)
     #[allow(clippy::type_complexity)]
     let mut held: Vec<Held> = Vec::new();
+    #[allow(clippy::type_complexity)]
+    let mut held_latest: Vec<(Box<dyn IterableStore<Column = Column>>, Model)> = Vec::new();
     let first_height: u64 = *pick(&mut rng, &[0u64, 1, 1, 4]);
 
     // height-less commits before the first block (regenesis-like)
@@ -550,12 +691,13 @@ fn run_history(args: &Args, report: &Report, shard: usize, shard_seed: u64, iter
                     diff_present: false,
                 };
                 chain.push(fake);
-                check_latest(&mut hist, &db, &chain, &base, &what);
+                check_latest(&mut hist, &db, &ks, &chain, &base, &what);
                 chain.pop();
             }
         } else if roll < 74 + p.restart_percent {
             // ---- restart, possibly with another policy
             held.clear();
+            held_latest.clear();
             drop(db);
             let old = policy;
             if !fixed_policy && chance(&mut rng, 80) {
@@ -582,7 +724,7 @@ fn run_history(args: &Args, report: &Report, shard: usize, shard_seed: u64, iter
                 let h = b.height;
                 if let Ok(Ok(v)) = catch(|| db.view_at(&BlockHeight::from(h as u32))) {
                     let contiguous = chain.iter().filter(|x| x.height > h).all(|x| x.history_retained);
-                    if contiguous && held.len() < 3 {
+                    if contiguous && held.len() < 4 {
                         held.push(Held {
                             height: h,
                             view: Box::new(v),
@@ -594,11 +736,33 @@ fn run_history(args: &Args, report: &Report, shard: usize, shard_seed: u64, iter
                     }
                 }
             }
+            // a view at the current height (a snapshot of the latest state) and
+            // an iterable latest_view, both held over the following steps
+            if let Some(l) = chain.last() {
+                if held.len() < 5 {
+                    if let Ok(Ok(v)) = catch(|| db.view_at(&BlockHeight::from(l.height as u32))) {
+                        held.push(Held {
+                            height: l.height,
+                            view: Box::new(v),
+                            expected: l.state.clone(),
+                            needs_history: false,
+                            history_removed_since: false,
+                        });
+                        hist.local.count("held_views.taken_at_latest");
+                    }
+                }
+                if held_latest.len() < 2 {
+                    if let Ok(Ok(v)) = catch(|| AtomicView::latest_view(&db)) {
+                        held_latest.push((Box::new(v), l.state.clone()));
+                        hist.local.count("held_latest_views.taken");
+                    }
+                }
+            }
             continue;
         }
 
         // ---- after every step: latest, all heights, held views
-        check_latest(&mut hist, &db, &chain, &base, &what);
+        check_latest(&mut hist, &db, &ks, &chain, &base, &what);
         let latest = chain.last().map(|b| b.height);
         for (i, b) in chain.iter().enumerate() {
             let h = b.height;
@@ -621,20 +785,36 @@ fn run_history(args: &Args, report: &Report, shard: usize, shard_seed: u64, iter
                     } else {
                         "views.ok.history_contiguous"
                     });
-                    let corrupt = selftest == 1 && !gap && Some(h) != latest;
+                    let corrupt = if (selftest == 1 || selftest == 3) && !gap && Some(h) != latest {
+                        selftest
+                    } else {
+                        0
+                    };
                     let mut reads = check_view_reads(&mut hist, &view, &ks, &all_heights, &b.state, corrupt);
                     // the metadata row read through the view carries the height
                     if let Ok(m) = &mut reads {
                         hist.local.evals += 1;
                         match catch(|| {
-                            view.storage::<MetadataTable<OnChain>>()
+                            let height = view
+                                .storage::<MetadataTable<OnChain>>()
                                 .get(&())
                                 .map(|m| m.map(|m| u32::from(*m.height()) as u64))
-                                .map_err(|e| format!("{e}"))
+                                .map_err(|e| format!("{e}"))?;
+                            let contains = view
+                                .storage::<MetadataTable<OnChain>>()
+                                .contains_key(&())
+                                .map_err(|e| format!("{e}"))?;
+                            Ok::<_, String>((height, contains))
                         }) {
-                            Ok(Ok(mh)) => {
+                            Ok(Ok((mh, contains))) => {
                                 if mh != Some(h) {
-                                    m.push(format!("metadata row: expected height {h} observed {mh:?}"));
+                                    m.values
+                                        .push(format!("metadata row: expected height {h} observed {mh:?}"));
+                                } else if !contains {
+                                    m.methods.push((
+                                        "contains_key",
+                                        "metadata row: contains_key = false although get returns the row".into(),
+                                    ));
                                 }
                             }
                             Ok(Err(e)) => reads = Err(format!("reading the metadata row failed: {e}")),
@@ -642,7 +822,7 @@ fn run_history(args: &Args, report: &Report, shard: usize, shard_seed: u64, iter
                         }
                     }
                     match reads {
-                        Ok(m) if m.is_empty() => {
+                        Ok(m) if m.values.is_empty() && m.methods.is_empty() => {
                             if differs && Some(h) != latest {
                                 hist.local.count("views.ok.state_differs_from_latest");
                                 hist.local
@@ -651,21 +831,32 @@ fn run_history(args: &Args, report: &Report, shard: usize, shard_seed: u64, iter
                             }
                         }
                         Ok(m) => {
-                            let signature = if gap {
-                                "view_at_wrong_value cause=history_gap_above_height"
-                            } else {
-                                "view_at_wrong_value cause=none_history_contiguous"
-                            };
-                            hist.violation(
-                                signature,
-                                format!(
-                                    "view_at({h}) (latest {latest:?}, policy now {}) returned {} wrong value(s): {}; heights above without a reverse diff: {:?}",
-                                    policy_name(policy),
-                                    m.len(),
-                                    m.iter().take(5).cloned().collect::<Vec<_>>().join("; "),
-                                    chain[i + 1..].iter().filter(|x| !x.diff_present).map(|x| x.height).collect::<Vec<_>>()
-                                ),
-                            );
+                            if !m.values.is_empty() {
+                                let signature = if gap {
+                                    "view_at_wrong_value cause=history_gap_above_height"
+                                } else {
+                                    "view_at_wrong_value cause=none_history_contiguous"
+                                };
+                                hist.violation(
+                                    signature,
+                                    format!(
+                                        "view_at({h}) (latest {latest:?}, policy now {}) returned {} wrong value(s): {}; heights above without a reverse diff: {:?}",
+                                        policy_name(policy),
+                                        m.values.len(),
+                                        m.values.iter().take(5).cloned().collect::<Vec<_>>().join("; "),
+                                        chain[i + 1..].iter().filter(|x| !x.diff_present).map(|x| x.height).collect::<Vec<_>>()
+                                    ),
+                                );
+                            }
+                            if let Some((method, _)) = m.methods.first() {
+                                hist.violation(
+                                    &format!("view_read_method_disagrees_with_get method={method} view=fresh"),
+                                    format!(
+                                        "view_at({h}) (latest {latest:?}): {}",
+                                        m.methods.iter().take(5).map(|x| x.1.clone()).collect::<Vec<_>>().join("; ")
+                                    ),
+                                );
+                            }
                         }
                         Err(e) => {
                             hist.violation("view_read_failed", format!("view_at({h}) succeeded but {e}"));
@@ -707,8 +898,8 @@ fn run_history(args: &Args, report: &Report, shard: usize, shard_seed: u64, iter
             // a held view of a height that has been rolled back meanwhile is
             // still a snapshot of the old chain
             let h = v.height;
-            match check_view_reads(&mut hist, v.view.as_ref(), &ks, &BTreeSet::new(), &v.expected, false) {
-                Ok(m) if m.is_empty() => {
+            match check_view_reads(&mut hist, v.view.as_ref(), &ks, &BTreeSet::new(), &v.expected, 0) {
+                Ok(m) if m.values.is_empty() && m.methods.is_empty() => {
                     hist.local.count(if v.history_removed_since {
                         "held_views.rechecked.after_history_removal"
                     } else {
@@ -719,26 +910,47 @@ fn run_history(args: &Args, report: &Report, shard: usize, shard_seed: u64, iter
                     }
                 }
                 Ok(m) => {
-                    let signature = if v.history_removed_since {
-                        "held_view_changed cause=history_above_removed_by_later_rollback_or_pruning"
-                    } else {
-                        "held_view_changed cause=none_history_untouched"
-                    };
-                    hist.violation(
-                        signature,
-                        format!("a view_at({h}) taken earlier changed after {what}: {}", m.join("; ")),
-                    );
+                    if !m.values.is_empty() {
+                        let signature = if v.history_removed_since {
+                            "held_view_changed cause=history_above_removed_by_later_rollback_or_pruning"
+                        } else {
+                            "held_view_changed cause=none_history_untouched"
+                        };
+                        hist.violation(
+                            signature,
+                            format!("a view_at({h}) taken earlier changed after {what}: {}", m.values.join("; ")),
+                        );
+                    }
+                    if let Some((method, _)) = m.methods.first() {
+                        hist.violation(
+                            &format!("view_read_method_disagrees_with_get method={method} view=held"),
+                            format!(
+                                "a view_at({h}) taken earlier, after {what}: {}",
+                                m.methods.iter().take(5).map(|x| x.1.clone()).collect::<Vec<_>>().join("; ")
+                            ),
+                        );
+                    }
                 }
                 Err(e) => hist.violation("view_read_failed", format!("held view_at({h}): {e}")),
             }
         }
         held = still;
+        let mut still_latest = Vec::new();
+        for (view, expected) in held_latest.drain(..) {
+            check_latest_view(&mut hist, view.as_ref(), &ks, &expected, "held", &what);
+            hist.local.count("held_latest_views.rechecked");
+            if chance(&mut rng, 60) {
+                still_latest.push((view, expected));
+            }
+        }
+        held_latest = still_latest;
         let _ = step;
     }
     if report.wants_sample() && iteration == 0 {
         report.sample(json!({"events": hist.events.join(" "), "first_ops": hist.ops.iter().take(5).cloned().collect::<Vec<_>>()}));
     }
     drop(held);
+    drop(held_latest);
     drop(db);
     hist.local.count("histories");
     hist.local.flush(report);
@@ -786,6 +998,9 @@ fn finish(args: &Args, report: &Report, selftest: u32, replay: bool) {
         report.require("restarts.policy_changed", t(15, 150));
         report.require("held_views.rechecked", t(50, 300));
         report.require("view_reads", t(60_000, 600_000));
+        report.require("held_views.taken_at_latest", t(40, 400));
+        report.require("held_latest_views.rechecked", t(40, 400));
+        report.require("view_iterations", t(20_000, 200_000));
     }
     if selftest > 0 && report.violation_count() == 0 {
         report.inconclusive(format!("selftest {selftest}: the perturbation was not detected"));
@@ -793,7 +1008,7 @@ fn finish(args: &Args, report: &Report, selftest: u32, replay: bool) {
     report.finish(
         args,
         "exploration",
-        "history = seeded sequence over a RocksDB-backed Database<OnChain>: height-less genesis commits, block commits (FuelBlocks row + inserts/deletes/re-inserts/unchanged values over 21 fixed-length keys in Coins/Messages/ContractsState), restarts with a (possibly different) StateRewindPolicy out of {NoRewind, Full, Range1/2/3/5}, rollback_last_block, held views; after every step view_at(h) for every committed height is read for every key and compared with the model's map after block h; one evaluation = one compared read / height / rollback; distinct/non-trivial = successful view below the latest height whose expected state differs from the latest state, keyed by (event history, distance to latest), and successful rollbacks keyed by event history",
+        "history = seeded sequence over a RocksDB-backed Database<OnChain>: height-less genesis commits, block commits (FuelBlocks row + inserts/deletes/re-inserts/unchanged values over 21 fixed-length keys in Coins/Messages/ContractsState), restarts with a (possibly different) StateRewindPolicy out of {NoRewind, Full, Range1/2/3/5}, rollback_last_block, held views; after every step view_at(h) for every committed height is read for every key and compared with the model's map after block h; every key is read through get, exists, size_of_value, read_exact and read_zerofill (offsets/lengths around the value length), latest_view()s are also iterated (whole columns, prefix, start, both directions, both APIs), fresh and held over later commits/rollbacks; one evaluation = one compared read-method answer / iteration / height / rollback; distinct/non-trivial = successful view below the latest height whose expected state differs from the latest state, keyed by (event history, distance to latest), and successful rollbacks keyed by event history",
         false,
         &[
             "a failing view_at is never a violation (the property allows the no-history error); its share is reported and bounded by thresholds on successful views",
@@ -802,6 +1017,7 @@ fn finish(args: &Args, report: &Report, selftest: u32, replay: bool) {
             "rollback failure is a violation only when the latest block was committed under a rewind policy and no later commit's RewindRange window excluded it",
             "restarts are clean shutdowns (drop + reopen); crash points inside a commit are not injected",
             "block commits are single change sets (lists are C11's subject)",
+            "read_zerofill's returned count is compared with the value length (what both the default and the RocksDb implementation return), the buffers of failed reads are not compared",
         ],
     );
 }
